@@ -494,7 +494,7 @@ func Step(g *G, gs *gripql.GraphStatement, ts []*Trav, s *State) (out []*Trav, o
 		}
 		var nt []*Trav
 		for _, t := range ts {
-			found := 0
+			found, dangling := 0, 0
 			if t.Cur == nil {
 				continue
 			}
@@ -504,6 +504,8 @@ func Step(g *G, gs *gripql.GraphStatement, ts []*Trav, s *State) (out []*Trav, o
 						if v, ok := g.V[e.From]; ok {
 							nt = append(nt, t.move(vEl(v)))
 							found++
+						} else {
+							dangling++
 						}
 					}
 				}
@@ -512,8 +514,16 @@ func Step(g *G, gs *gripql.GraphStatement, ts []*Trav, s *State) (out []*Trav, o
 						if v, ok := g.V[e.To]; ok {
 							nt = append(nt, t.move(vEl(v)))
 							found++
+						} else {
+							dangling++
 						}
 					}
+				}
+				if null && found == 0 && dangling > 0 {
+					// the documentation (and ot_null.py) says "no match -> one null
+					// traveler"; whether an edge to a vertex that is not there is a
+					// match is said nowhere, so the reference says nothing
+					return nil, false, "outNull/inNull over an edge whose far vertex does not exist (not specified)"
 				}
 			} else { // edge -> endpoint vertices
 				if doIn {
